@@ -74,7 +74,11 @@ pub fn spec(check: &str, tier: &str) -> Option<CheckSpec> {
     let wall = Duration::from_secs(if tier == "quick" { 30 } else { 300 });
     match check {
         "C01" => {
-            let (progs, level) = asc_programs(tier);
+            let (mut progs, mut level) = asc_programs(tier);
+            for (pr, l) in [lock_programs(tier), wait_programs(tier), chan_programs(tier)] {
+                progs.extend(pr);
+                level = format!("{}; {}", level, l);
+            }
             Some(CheckSpec {
                 id: "C01",
                 level: "model_checking",
@@ -102,6 +106,118 @@ pub fn spec(check: &str, tier: &str) -> Option<CheckSpec> {
                 abort_is_violation: true,
             })
         }
+        "C05" => {
+            let (mut progs, l1) = lock_programs(tier);
+            let (w, l2) = wait_programs(tier);
+            let (c, l3) = chan_programs(tier);
+            progs.extend(w);
+            progs.extend(c);
+            Some(CheckSpec {
+                id: "C05",
+                level: "model_checking",
+                rule: "every program of the LOCK, WAIT and CHAN families up to the size level; non-trivial = the reference reaches a deadlock state",
+                assumptions: vec!["SC machine step semantics for blocking primitives (DESIGN.md 3.1, appendix C)"],
+                wall_cap: wall,
+                jobs: jobs("C05", tier, progs, &cfg),
+                self_checks: vec![],
+                completed_level: format!("{}; {}; {}", l1, l2, l3),
+                abort_is_violation: true,
+            })
+        }
+        "C07" => {
+            let (progs, level) = lock_programs(tier);
+            Some(CheckSpec {
+                id: "C07",
+                level: "model_checking",
+                rule: "every program of the LOCK family up to the size level; every iteration's completion history replayed on the lock automaton; non-trivial = >= 2 reference outcomes or a deadlock",
+                assumptions: vec!["lock automaton of DESIGN.md appendix C; no writer preference; recursive read locks excluded"],
+                wall_cap: wall,
+                jobs: jobs("C07", tier, progs, &cfg),
+                self_checks: vec![],
+                completed_level: level,
+                abort_is_violation: true,
+            })
+        }
+        "C08" => {
+            let (progs, level) = wait_programs(tier);
+            Some(CheckSpec {
+                id: "C08",
+                level: "model_checking",
+                rule: "every program of the WAIT family up to the size level; every iteration's completion history replayed on the wait/notify automaton; non-trivial = >= 2 reference outcomes or a deadlock",
+                assumptions: vec!["wait automaton of DESIGN.md appendix C (FIFO notify_one for outcome equality, any waiter for conformance)"],
+                wall_cap: wall,
+                jobs: jobs("C08", tier, progs, &cfg),
+                self_checks: vec![],
+                completed_level: level,
+                abort_is_violation: true,
+            })
+        }
+        "C09" => {
+            let (progs, level) = chan_programs(tier);
+            Some(CheckSpec {
+                id: "C09",
+                level: "model_checking",
+                rule: "every program of the CHAN family up to the size level; every iteration's completion history replayed on the FIFO automaton; non-trivial = >= 2 reference outcomes or a bad verdict",
+                assumptions: vec!["unbounded FIFO automaton; no disconnection semantics (a sender stays alive)"],
+                wall_cap: wall,
+                jobs: jobs("C09", tier, progs, &cfg),
+                self_checks: vec![],
+                completed_level: level,
+                abort_is_violation: true,
+            })
+        }
         _ => None,
     }
+}
+
+pub fn lock_programs(tier: &str) -> (Vec<Program>, String) {
+    let mut v = vec![];
+    let level;
+    if tier == "quick" {
+        v.extend(fam::lock_family(2, 0, 2, 4, 8, true, true));
+        v.extend(fam::lock_family(1, 1, 2, 3, 6, true, true));
+        v.extend(fam::lock_family(1, 0, 3, 3, 7, true, true));
+        level = "LOCK: 2 mutexes 2 threads x <=4 ops; mutex+rwlock 2 threads x <=3 ops; 1 mutex 3 threads <=7 ops; + sentinels".to_string();
+    } else {
+        v.extend(fam::lock_family(2, 0, 2, 5, 10, true, true));
+        v.extend(fam::lock_family(1, 1, 2, 4, 8, true, true));
+        v.extend(fam::lock_family(2, 0, 3, 4, 8, true, true));
+        v.extend(fam::lock_family(0, 1, 3, 3, 8, true, true));
+        level = "LOCK: 2 mutexes 2 threads x <=5 ops; mutex+rwlock 2 threads x <=4; 3 threads <=8 ops; + sentinels".to_string();
+    }
+    v.extend(fam::lock_sentinels());
+    (v, level)
+}
+
+pub fn wait_programs(tier: &str) -> (Vec<Program>, String) {
+    let mut v = vec![];
+    let level;
+    if tier == "quick" {
+        v.extend(fam::wait_family(2, 1, 1, 12, true, true, true));
+        v.extend(fam::wait_family(1, 2, 2, 12, true, true, true));
+        level = "WAIT: 2 children x 1 block + main <=1 block; 1 child x <=2 blocks + main <=2 blocks (condvar, Notify, park/unpark)".to_string();
+    } else {
+        v.extend(fam::wait_family(2, 2, 1, 14, true, true, true));
+        v.extend(fam::wait_family(3, 1, 1, 14, true, true, true));
+        v.extend(fam::wait_family(1, 3, 2, 14, true, true, true));
+        level = "WAIT: 2 children x <=2 blocks + main <=1; 3 children x 1 block + main <=1; 1 child x <=3 blocks + main <=2".to_string();
+    }
+    (v, level)
+}
+
+pub fn chan_programs(tier: &str) -> (Vec<Program>, String) {
+    let mut v = vec![];
+    let level;
+    if tier == "quick" {
+        v.extend(fam::chan_family(1, 2, 3, true));
+        v.extend(fam::chan_family(2, 2, 3, true));
+        level = "CHAN: 1-2 senders x <=2 sends, receiver <=3 recv/try_recv (+drop)".to_string();
+    } else {
+        v.extend(fam::chan_family(1, 3, 4, true));
+        v.extend(fam::chan_family(2, 2, 4, true));
+        v.extend(fam::chan_family(3, 1, 4, true));
+        v.extend(fam::chan_family(3, 2, 3, true));
+        level = "CHAN: 1-3 senders x <=3 sends, receiver <=4 recv/try_recv (+drop)".to_string();
+    }
+    (v, level)
 }
